@@ -25,6 +25,14 @@ HIPRAX_INPUTS = {
     'Verif Unused A': [('lognormal', [-11, 0.5])],       # unknown names are ignored by HIP-RA-X: exercise tiny values
     'Verif Unused B': [('normal', [0, 1000]), ('binomial', [3, 0.5])],   # ... negative values and small integers
 }
+# '#': the value of the base file (HIP-RA-X example1: temperature 250, rejection 60, area 55, thickness 0.25, life cycle 25)
+HIPRAX_HASH_INPUTS = {
+    'Reservoir Temperature': [('normal', ['#', 5])],
+    'Rejection Temperature': [('uniform', [20, '#'])],
+    'Reservoir Area': [('triangular', [40, '#', 70])],
+    'Reservoir Thickness': [('uniform', ['#', 0.299])],
+    'Reservoir Life Cycle': [('binomial', ['#', 0.6])],
+}
 HIPRAX_OUTPUTS = ['Reservoir Volume (reservoir)', 'Stored Heat (reservoir)', 'Stored Heat (rock)', 'Stored Heat (fluid)',
                   'Available Heat (reservoir)', 'Producible Heat (reservoir)', 'Producible Electricity (reservoir)',
                   'Recovery Factor (reservoir)', 'Specific Enthalpy (fluid)', 'Reservoir Pressure', 'Reservoir Depth',
@@ -35,34 +43,75 @@ def hiprax_base():
     return (MC_TESTS / 'HIP-RA-X_example1.txt').read_text()
 
 
-def make_settings(rnd, iterations, n_inputs=None, n_outputs=None, inputs=None, outputs=None):
-    """-> settings text.  Both comma styles of the shipped settings files ('X, normal' and 'X,normal') are produced."""
+def make_settings(rnd, iterations, n_inputs=None, n_outputs=None, inputs=None, outputs=None, hash_share=0.0, output_file=None):
+    """-> settings text.  Both comma styles of the shipped settings files ('X, normal' and 'X,normal') are produced;
+    with probability hash_share an input takes a parameter from the base file ('#'); output_file adds an MC_OUTPUT_FILE line
+    ('{JOBDIR}' in it is replaced by the job directory when the job is run)."""
     names = list(HIPRAX_INPUTS)
     if inputs is None:
         chosen = rnd.sample(names, n_inputs or rnd.randint(2, 6))
-        inputs = [(n,) + rnd.choice(HIPRAX_INPUTS[n]) for n in names if n in chosen]
+        inputs = [(n,) + rnd.choice(HIPRAX_HASH_INPUTS[n] if n in HIPRAX_HASH_INPUTS and rnd.random() < hash_share else HIPRAX_INPUTS[n])
+                  for n in names if n in chosen]
     if outputs is None:
         outputs = sorted(rnd.sample(HIPRAX_OUTPUTS, n_outputs or rnd.randint(1, 4)), key=HIPRAX_OUTPUTS.index)
     lines = []
     for name, word, fields in inputs:
         sep = rnd.choice([', ', ','])
-        lines.append(f'INPUT, {name},{sep[1:]}{word}, ' + ', '.join(repr(x) for x in fields))
-    lines += [f'OUTPUT, {o}' for o in outputs] + [f'ITERATIONS, {iterations}']
+        lines.append(f'INPUT, {name},{sep[1:]}{word}, ' + ', '.join(x if isinstance(x, str) else repr(x) for x in fields))
+    lines += [f'OUTPUT, {o}' for o in outputs]
+    if output_file:
+        lines.insert(rnd.randint(0, len(lines)), f'MC_OUTPUT_FILE, {output_file}')
+    lines.insert(rnd.randint(0, len(lines)), f'ITERATIONS, {iterations}')
     return '\n'.join(lines) + '\n'
 
 
-def parse_settings(text):
-    """Independent reading of a settings file: inputs [(name, word, [float fields])], outputs, iterations."""
-    inputs, outputs, iterations = [], [], 0
+def parse_settings_raw(text):
+    """Independent reading of a settings file, as text: INPUT field lists (name stripped, the rest raw), OUTPUT labels,
+    ITERATIONS text and MC_OUTPUT_FILE text (the last line of a kind governs)."""
+    inputs, outputs, iterations, output_file = [], [], None, None
     for line in text.splitlines():
         p = line.strip().split(',')
-        if p[0].startswith('INPUT'):
-            inputs.append((p[1].strip(), p[2], [float(x) for x in p[3:]]))
-        elif p[0].startswith('OUTPUT'):
-            outputs.append(p[1].strip())
-        elif p[0].startswith('ITERATIONS'):
-            iterations = int(p[1])
-    return inputs, outputs, iterations
+        key, val = p[0], p[1].strip()
+        if key.startswith('INPUT'):
+            inputs.append([val] + p[2:])
+        elif key.startswith('OUTPUT'):
+            outputs.append(val)
+        elif key.startswith('ITERATIONS'):
+            iterations = val
+        elif key.startswith('MC_OUTPUT_FILE'):
+            output_file = val
+    return inputs, outputs, iterations, output_file
+
+
+def resolve_hash(fields, base_text):
+    """'#' in an INPUT line: -> (fields with the first '#' field replaced, source line of the base file or None).
+    The value is the second comma field of the first base-file line that starts with the parameter name."""
+    idx = next((i for i, f in enumerate(fields) if '#' in f), None)
+    src = None if idx is None else next((ln for ln in base_text.splitlines(True) if ln.startswith(fields[0])), None)
+    if src is None:
+        return list(fields), None
+    return fields[:idx] + [src.split(',')[1]] + fields[idx + 1:], src
+
+
+def simulated_value(base_text, name):
+    """The value the simulator uses for a parameter: the last non-comment line whose name field is the name (C12)."""
+    val = None
+    for ln in base_text.splitlines():
+        ln = ln.strip()
+        p = ln.split(',')
+        if not ln.startswith(('#', '--', '*')) and len(p) >= 2 and p[0].strip() == name:
+            val = p[1].strip()
+    return val
+
+
+def parse_settings(text, base=None):
+    """inputs [(name, word, [float fields])] ('#' resolved through the base file when given), outputs, iterations."""
+    raw, outputs, iterations, _ = parse_settings_raw(text)
+    inputs = []
+    for f in raw:
+        f = resolve_hash(f, base)[0] if base is not None else f
+        inputs.append((f[0], f[1], [float(x) for x in f[2:]]))
+    return inputs, outputs, int(iterations or 0)
 
 
 def corpus_specs(pid):
@@ -98,7 +147,8 @@ def run_job(ctx, name, settings, W=16, mode='pool', program='HIP_RA_X', base=Non
     d = ctx.scratch / f'mc_{name}'
     d.mkdir()
     (d / 'base.txt').write_text(base if base is not None else hiprax_base())
-    (d / 'settings.txt').write_text(settings)
+    settings_run = settings.replace('{JOBDIR}', str(d))
+    (d / 'settings.txt').write_text(settings_run)
     job = {'program': program, 'base': str(d / 'base.txt'), 'settings': str(d / 'settings.txt'),
            'result': str(d / 'result.txt'), 'W': W, 'mode': mode}
     (d / 'job.json').write_text(json.dumps(job))
@@ -108,8 +158,9 @@ def run_job(ctx, name, settings, W=16, mode='pool', program='HIP_RA_X', base=Non
     if not out.exists():
         raise RuntimeError(f'Monte Carlo driver produced no observation (rc={p.returncode}): {p.stderr[-600:]}')
     o = json.loads(out.read_text())
-    res, js = d / 'result.txt', d / 'result.json'
-    return Run({'name': name, 'dir': d, 'settings': settings, 'W': W, 'mode': mode, 'program': program,
+    res = Path(parse_settings_raw(settings_run)[3] or d / 'result.txt')      # an MC_OUTPUT_FILE line overrides the argument
+    js = res.with_suffix('.json')
+    return Run({'name': name, 'dir': d, 'settings': settings, 'settings_run': settings_run, 'W': W, 'mode': mode, 'program': program,
                 'base': base if base is not None else hiprax_base(), 'main_error': o['main_error'], 'tasks': o['tasks'],
                 'result_text': res.read_text() if res.exists() else None,
                 'json_text': js.read_text() if js.exists() else None})
